@@ -71,3 +71,39 @@ PROPS["C19"] = {
         "rustc nightly's MIR (overflow checks on, debug assertions off) reflects the shipped semantics; z3 5.1.0 and cvc5 1.0.3 agree on every query",
     ],
 }
+
+# ---------------------------------------------------------------- value family (C10, C11)
+def val_rules(nodes=10, lenb=24):
+    """unwindset for the value family. nodes ~ number of type nodes walked by
+    the Vec worklists; lenb ~ distinct sha256 compressions (hash-consing table)"""
+    return [
+        BITITER_NEXT_REC,
+        (r"try_from_fn_erased", "*", 66),        # merkle::concat: core::array::from_fn over 64 bytes
+        (r"^memcmp$", "*", 34),                  # [u8; 32] equality (TMR comparison)
+        (r"kani_hashcons::process_blocks", ("rank", 0), 3),
+        (r"kani_hashcons::process_blocks", ("rank", 1), 66),
+        (r"kani_hashcons::process_blocks", ("rank", 2), lenb),
+        (r"kani_hashcons::process_blocks", ("rank", 3), 10),
+        (r"kani_hashcons::process_blocks", ("rank", 4), 66),
+        (r"sha256::(Midstate::to_engine|HashEngine::midstate)", "*", 10),
+        (r"^(vals|c10|c11)::", "*", 34),
+        (r"vals::mark$", "rec", 8),
+        (r"Value::from_compact_bits", "*", 2 * nodes + 3),
+        (r"Value::from_padded_bits", "*", 10),
+        (r"Value::prune", "*", 3 * nodes + 3),
+        (r"CompactBitsIter<'_> as std::iter::Iterator>::next", "*", nodes + 2),
+        (r"CompactBitsIter<'_> as std::iter::Iterator>::fold", "*", 34),
+        (r"value::copy_bits", "*", 34),
+        (r"BitCollector>::collect_bits", "*", 34),
+        (r"Iterator>::fold::<u8", "*", 10),
+        (r"extend_with", "*", 10),
+    ]
+
+
+PROPS["C10"] = {
+    "filters": ["k10_"],
+    "functions": [],
+    "harnesses": [
+        H("k10_probe_1pb_dec", timeout=600, unwind=8, unwindset=val_rules(6, 12)),
+    ],
+}
